@@ -212,7 +212,7 @@ fn gen_items(r: &mut Rng, n: usize) -> Vec<Value> {
                         attrs.push(attrj(dp, dl, dv));
                     } else {
                         let (ap, al) = *r.pick(plain);
-                        attrs.push(attrj(ap, al, *r.pick(&["1", "2", ""])));
+                        attrs.push(attrj(ap, al, *r.pick(&["1", "2", "", "&amp;", "&#13;", "&lt;", "'", "&quot;", "a b", "&#10;", "&gt;", "é&#9;"])));
                     }
                 }
                 let empty = r.chance(1, 3);
@@ -235,7 +235,7 @@ fn gen_items(r: &mut Rng, n: usize) -> Vec<Value> {
                     }
                 }
             },
-            7 => items.push(json!({"k":"text","s":cps(*r.pick(&["t", " ", "x y"]))})),
+            7 => items.push(json!({"k":"text","s":cps(*r.pick(&["t", " ", "x y", "&#13;", "&amp;", "&lt;&gt;", "&quot;'", "]]&gt;", "&#9;&#10;", "é", "<!--c-->", "<?p d?>", "&#13;&#10;"]))})),
             _ => {
                 if let Some((p, l)) = open.last().cloned() {
                     if r.chance(1, 2) {
@@ -388,6 +388,28 @@ pub fn main(args: &Args) {
                     }
                     out.line(&json!({"ev":"tree","case":id,"dom":xo.tree,"quirks":"no","parents_ok":xo.parents_ok,
                                      "panic": match &xo.panic { Some(m) => json!([cps(m)]), None => json!([]) }, "neof": neof}));
+                }
+            },
+            "ser" => {
+                // C17: parse, serialize, parse again; both trees (with prefixes, without doctype ids) and the bytes
+                id += 1;
+                let r1 = catch(|| {
+                    let d1 = parse_rcdom(&text);
+                    let t1 = dump_ns(&d1.document);
+                    let bytes = serialize_xml(&d1);
+                    (t1, bytes)
+                });
+                match r1 {
+                    Ok((t1, Ok(bytes))) => {
+                        let s2 = String::from_utf8_lossy(&bytes).to_string();
+                        let r2 = catch(|| dump_ns(&parse_rcdom(&s2).document));
+                        match r2 {
+                            Ok(t2) => out.line(&json!({"ev":"case","case":id,"text":cps(&text),"t1":t1,"ser":cps(&s2),"t2":t2,"panic":[]})),
+                            Err(m) => out.line(&json!({"ev":"case","case":id,"text":cps(&text),"t1":t1,"ser":cps(&s2),"t2":{"k":"none"},"panic":[cps(&m)]})),
+                        }
+                    },
+                    Ok((t1, Err(m))) => out.line(&json!({"ev":"case","case":id,"text":cps(&text),"t1":t1,"ser":[],"t2":{"k":"none"},"panic":[cps(&m)]})),
+                    Err(m) => out.line(&json!({"ev":"case","case":id,"text":cps(&text),"t1":{"k":"none"},"ser":[],"t2":{"k":"none"},"panic":[cps(&m)]})),
                 }
             },
             "sched" => {
